@@ -12,6 +12,15 @@ def gen_train_case(rng, encodings=None, coverages=(0.3, 0.6, 1.0), allow_ew=True
     if rng.random() < 0.3:
         # passwords that begin / end with blanks (the blank is part of the password)
         items = list(items) + [(w, rng.choice([1, 2])) for w in rng.sample([' lead1', 'trail2 ', '  two3', '\xa0nbsp7', ' Both8 ', 'in ner9'], rng.randint(1, 3)) if trainlists.encodable(w, enc)]
+    if rng.random() < 0.06:
+        # every supported password has the same base structure (a list of first names + two digits, of PINs ...): with --skip_brute its rescaled
+        # probability is p / (1 - P(M)) = 1 on paper and 1 +- 1 ulp as floats
+        shape = rng.choice(['A4D2', 'D4', 'A5', 'A3O1'])
+        mk = {'A4D2': lambda: rng.choice(['love', 'blue', 'star', 'king', 'moon']) + rng.choice(['12', '99', '07', '42']),
+              'D4': lambda: rng.choice(['1234', '2580', '0000', '1111', '4321', '9876']),
+              'A5': lambda: rng.choice(['house', 'super', 'world', 'admin', 'hello']),
+              'A3O1': lambda: rng.choice(['cat', 'dog', 'fox', 'sun']) + rng.choice('!.#')}[shape]
+        items = list({mk(): rng.choice([1, 2, 3]) for _ in range(rng.randint(1, 6))}.items())
     tiny = rng.random() < 0.05
     if tiny:
         # every password is shorter than the n-gram size (PINs, initials): OMEN learns nothing at all; such a list can only be trained with coverage 1
